@@ -11,7 +11,7 @@
    [soft e] says e is one of the two.  The harness flags exactly these situations on the implementation. *)
 From Coq Require Import ZArith List Bool Lia.
 Import ListNotations.
-From Urwid Require Import WidgetDims WidgetDimsProofs.
+From Urwid Require Import WidgetDims WidgetDimsProofs WidgetDimsFrame WidgetDimsTree.
 Open Scope Z_scope.
 
 Definition WellFormed (w : widget) : Prop := wf_b w = true.
@@ -27,9 +27,11 @@ Definition render_contract_full : Prop :=
 
 (* ---- what is proved: box and flow sizes, trees of any depth built from leaves, AttrMap/LineBox
         delegation, BoxAdapter, Padding (given / pack / relative width), Filler (pack / given / relative
-        height) and Pile (given / pack / weight items), by structural induction on the tree.
-        Not covered: fixed sizing, Columns, Frame, Overlay, clip Padding (see _refuted below for the
-        parts of the full statement that are false of the faithful model). ---- *)
+        height), Pile (given / pack / weight items) and Frame (header / footer / any focus part), by
+        structural induction on the tree.
+        Not covered: fixed sizing, Columns (hence LineBox, whose generated Pile contains Columns),
+        Overlay, clip Padding (see _refuted below for the parts of the full statement that are false of
+        the faithful model). ---- *)
 Theorem render_contract_partial :
   forall w sz f, leaves_ok w -> WellFormed w -> proved_fragment w = true ->
     sz <> SFixed -> valid_for (m_sizing (denote w)) sz ->
@@ -80,6 +82,11 @@ Theorem pile_contract : forall l fp,
   l <> [] -> Forall pgood l -> Forall (pile_ok (pile_sizing l)) l -> Good (pile_sem l fp).
 Proof. exact pile_good. Qed.
 Print Assumptions pile_contract.
+Theorem frame_contract : forall body hd ft fpart,
+  Good body -> s_box (m_sizing body) = true -> opt_flow_good hd -> opt_flow_good ft ->
+  Good (frame_sem body hd ft fpart).
+Proof. exact frame_good. Qed.
+Print Assumptions frame_contract.
 
 (* ---- concrete leaves (they also show that the leaf hypothesis is satisfiable) ---- *)
 (* a one-line text *)
@@ -168,16 +175,18 @@ Example cursor_cut_happens :
 Proof. vm_compute. repeat split; reflexivity. Qed.
 
 (* ---- non-vacuity: a tree of depth 4 inside the fragment, all hypotheses hold, and the model computes ---- *)
-Definition sample_tree : widget :=
+Definition sample_pile : widget :=
   WPile
     (PCons (WPadding (WLeaf wrap_leaf) 50 (WRelative 50) None 1 0) KPack 0
     (PCons (WFiller (WAttr (WLeaf edit_leaf)) 50 HPack None 0 1) KWeight 2
     (PCons (WBoxAdapter (WPile (PCons (WLeaf solid_leaf) KWeight 1 PNil) 0) 2) KPack 0
     (PCons (WLeaf solid_leaf) KGiven 1 PNil)))) 1.
+Definition sample_tree : widget :=
+  WFrame sample_pile (OSome (WLeaf wrap_leaf)) (OSome (WLeaf edit_leaf)) 2.
 
 Example sample_tree_in_scope :
   WellFormed sample_tree /\ proved_fragment sample_tree = true /\ leaves_ok sample_tree
-  /\ m_sizing (denote sample_tree) = mkS true true true.
+  /\ m_sizing (denote sample_tree) = mkS true false false.
 Proof.
   split; [reflexivity|]. split; [reflexivity|]. split; [|reflexivity].
   cbn. repeat split;
@@ -185,7 +194,8 @@ Proof.
 Qed.
 
 Example sample_tree_renders :
-  m_render (denote sample_tree) (SBox 10 9) true = Ok (mkC 10 9 (Some (0, 2)) true)
-  /\ m_render (denote sample_tree) (SBox 3 2) false = Ok (mkC 3 2 None true)
-  /\ m_render (denote sample_tree) (SBox 1 4) false = Err EStarved.
+  m_render (denote sample_tree) (SBox 10 9) true = Ok (mkC 10 9 (Some (0, 8)) true)
+  /\ m_render (denote sample_pile) (SBox 10 9) true = Ok (mkC 10 9 (Some (0, 2)) true)
+  /\ m_render (denote sample_pile) (SBox 3 2) false = Ok (mkC 3 2 None true)
+  /\ m_render (denote sample_pile) (SBox 1 4) false = Err EStarved.
 Proof. vm_compute. repeat split; reflexivity. Qed.
